@@ -4,6 +4,7 @@ go 1.23.0
 
 require (
 	github.com/go-critic/go-critic v0.0.0
+	github.com/go-toolsmith/typep v1.1.0
 	golang.org/x/tools v0.32.0
 )
 
@@ -14,7 +15,6 @@ require (
 	github.com/go-toolsmith/astfmt v1.1.0 // indirect
 	github.com/go-toolsmith/astp v1.1.0 // indirect
 	github.com/go-toolsmith/strparse v1.1.0 // indirect
-	github.com/go-toolsmith/typep v1.1.0 // indirect
 	github.com/google/go-cmp v0.7.0 // indirect
 	github.com/quasilyte/go-ruleguard v0.4.4 // indirect
 	github.com/quasilyte/gogrep v0.5.0 // indirect
